@@ -516,7 +516,7 @@ def spoil(rng, value):
         if isinstance(x, dict):
             if "qname" in x and isinstance(x["qname"], str):
                 if rng.random() < 0.15:
-                    x["qname"] = rng.choice(["{urn:a}n 1", "a:b", "{urn:q}1x", "{urn:a}é"])
+                    x["qname"] = rng.choice(["{urn:a}n 1", "a:b", "{urn:q}1x", "{urn:a}-x"])  # (ASCII only: the driver evaluates NCName on ASCII)
             else:
                 for y in (x.get("fields") and [kv[1] for kv in x["fields"]]) or x.get("list") or []:
                     qnames(y)
